@@ -108,15 +108,37 @@ def run(ctx):
     bf = BranchFacts(f, kill="assign")
     for nm in ("processMakefileDiscoveredDependencies", "processDependencyInfoDiscoveredDependencies"):
         for i, c in enumerate(f.calls("ShellCommand::" + nm)):
-            # the call is the condition of an `if (!call) return false`
-            blk = [b for b in f.blocks.values() if b.cond() is not None and any(x is c for x in b.cond().walk())]
-            ok = False
-            if blk:
-                s_false_ret = blk[0].succs[0]   # `!call` true edge
-                w = cfg.path_exists(f, (s_false_ret, -1), lambda p, e: isinstance(e, int) and f.nodes[e].get("k") == "return" and
-                                    core(f.nodes[e].child("e")).get("v") is False)
-                ok = w is not None and len(w) <= 2
-            r.check(ok, "processDiscoveredDependencies|%s#%d-failure-propagates" % (nm, i), "", "a failed parse does not fail the dependency processing", f, c)
+            # when this call answers false the function can only answer false (`if (!call) return false;`, `return call;` alike): the body is walked
+            # with the call's value fixed, the other parse calls left open
+            key = cfg.canon(c)
+            cpos = cfg.pos_of(f, c)
+            direct = f.parent_of(c)
+            while direct is not None and direct.get("k") in ("cast", "paren", "cleanups"):
+                direct = f.parent_of(direct)
+            if direct is not None and direct.get("k") == "return":
+                ok = True                    # `return call(...)`: the answer is the call's
+            else:
+                def bad_end(p, e):
+                    n = cfg.elem_node(f, e)
+                    if n is not None and n.get("k") == "return":
+                        v = core(n.child("e")) if "e" in n else None
+                        return not (v is not None and v.get("k") == "bool" and v.get("v") is False)
+                    return p == cpos         # round the loop to the next file
+                w = cfg.path_exists_feasible(f, cpos, bad_end, infeasible=lambda a, p, key=key: a == key and p)
+                ok = w is None
+            r.check(ok, "processDiscoveredDependencies|%s#%d-failure-propagates" % (nm, i), "", "a failed parse does not fail the dependency processing: after this call "
+                    "answered false the function can go on or answer something else than false", f, c)
+    # every dependency file of the list is processed: the loop over the files is left early only with a failure
+    from rules import engine as E_
+    dl = [(lp, en) for lp, en in E_.whole_container_loops(f, "depsPaths")]
+    if len(dl) != 1:
+        raise AnalysisBroken("processDiscoveredDependencies: %d loops over depsPaths" % len(dl))
+    lp = dl[0][0]
+    early = [x for x in lp.child("body").walk() if x.get("k") in ("return", "break", "goto") and
+             not (x.get("k") == "return" and "e" in x and core(x.child("e")) is not None and core(x.child("e")).get("k") == "bool" and core(x.child("e")).get("v") is False)]
+    early = [x for x in early if not (x.get("k") == "break" and next((a for a in f.ancestors(x) if a.get("k") in ("switch", "for", "forrange", "while", "do")), None) is not lp)]
+    r.check(not early, "processDiscoveredDependencies|all-files-processed", "", "the loop over the dependency files can be left without a failure before the last file: what "
+            "only a later file names is never registered", f, early[0] if early else None)
     gets = f.calls("getFileContents")
     rets_false = [x for x in f.nodes if x.get("k") == "return" and core(x.child("e")).get("v") is False]
     ok = any(any(a == "input.operator bool()" and not p for a, p in (bf.at_node(x) or frozenset())) for x in rets_false)
@@ -299,4 +321,6 @@ VARIANTS = [
     dict(name="hash-escape-dropped", file="lib/Core/MakefileDepsParser.cpp", old="      if (c == ' ' || c == '#' || c == '\\\\') {", new="      if (c == ' ' || c == '\\\\') {", expect=("R-ESCAPE-TABLE", "escape-set")),
     dict(name="double-dollar-kept", file="lib/Core/MakefileDepsParser.cpp",
          old="      unescapedWord.push_back(c);\n      ++cur;\n      continue;", new="      unescapedWord.push_back(c);\n      unescapedWord.push_back(c);\n      ++cur;\n      continue;", expect=("R-ESCAPE-TABLE", "double-dollar")),
+    dict(name="only-first-deps-file-processed", file="lib/BuildSystem/ShellCommand.cpp", old="      if (!processMakefileDiscoveredDependencies(\n              system, ti, context, depsPath, input.get(), false))\n        return false;\n      continue;",
+         new="      return processMakefileDiscoveredDependencies(\n          system, ti, context, depsPath, input.get(), false);", expect=("R-DEPS-ERRORS-FAIL", "all-files-processed")),
 ]
